@@ -114,6 +114,55 @@ def run(R):
         o = base[half:] + base[:half]
         for f in ("eq", "ne"):
             add(("mac", f, "rep"), {"fn": "mac", "f": f, "a": base, "b": o})
+    # differences at two or three positions that cancel under xor (an accumulator combined with ^ instead of | would miss them), bytes and words
+    for n in (2, 3, 5, 8, 16, 33):
+        base = vlib.prng_bytes(R.seed, "c18/cancel/%d" % n, n)
+        outs = []
+        for _ in range(3):
+            i, j = R.rng.sample(range(n), 2)
+            d = R.rng.randrange(1, 256)
+            o = list(base); o[i] ^= d; o[j] ^= d
+            outs.append(o)
+            if n >= 3:
+                i, j, k = R.rng.sample(range(n), 3)
+                d1, d2 = R.rng.randrange(1, 256), R.rng.randrange(1, 256)
+                o = list(base); o[i] ^= d1; o[j] ^= d2; o[k] ^= d1 ^ d2
+                if o != base:
+                    outs.append(o)
+        sw = list(base); sw[0], sw[-1] = sw[-1], sw[0]
+        if sw != base:
+            outs.append(sw)
+        for o in outs:
+            for fn, fs in (("arr8", ("ct_eq", "ct_ne")), ("sl8", ("ct_eq", "ct_ne")), ("mac", ("eq", "ne"))) + ((("tag", ("eq", "ct_eq")),) if n == 16 else ()):
+                for f in fs:
+                    add((fn, f, "cancel"), {"fn": fn, "f": f, "a": base, "b": o})
+    for n in (2, 3, 5, 8):
+        words = [R.rng.getrandbits(64) for _ in range(n)]
+        enc = lambda ws: [b for w in ws for b in le8(w)]
+        cases = [[1, 0] + words[2:], None]
+        a0 = [0, 1] + words[2:]
+        for _ in range(3):
+            i, j = R.rng.sample(range(n), 2)
+            d = R.rng.getrandbits(64) | 1
+            o = list(words); o[i] ^= d; o[j] ^= d
+            for fn in ("arr64", "sl64"):
+                for f in ("ct_eq", "ct_ne"):
+                    add((fn, f, "cancel"), {"fn": fn, "f": f, "a": enc(words), "b": enc(o)})
+        for fn in ("arr64", "sl64"):
+            for f in ("ct_eq", "ct_ne"):
+                add((fn, f, "cancel"), {"fn": fn, "f": f, "a": enc([1, 0] + words[2:]), "b": enc(a0)})
+        if n >= 3:
+            i, j, k = R.rng.sample(range(n), 3)
+            d1, d2 = R.rng.getrandbits(64) | 2, R.rng.getrandbits(64) | 4
+            o = list(words); o[i] ^= d1; o[j] ^= d2; o[k] ^= d1 ^ d2
+            for fn in ("arr64", "sl64"):
+                add((fn, "ct_eq", "cancel"), {"fn": fn, "f": "ct_eq", "a": enc(words), "b": enc(o)})
+    # MacResult: lengths that agree modulo 256 (or modulo 2^16) with the shorter code a prefix of the longer one
+    for (n1, n2) in ((0, 256), (32, 288), (1, 257), (16, 16 + 512), (20, 20 + 65536), (64, 64 + 256)):
+        longer = vlib.prng_bytes(R.seed, "c18/maclen/%d" % n2, n2)
+        for f in ("eq", "ne"):
+            add(("mac", f, "len256"), {"fn": "mac", "f": f, "a": longer[:n1], "b": longer})
+            add(("mac", f, "len256"), {"fn": "mac", "f": f, "a": longer, "b": longer[:n1]})
     # ---- u64 arrays / slices
     for n in range(0, 9):
         base = vlib.prng_bytes(R.seed, "c18/a64/%d" % n, 8 * n)
